@@ -127,6 +127,53 @@ theorem fnm_cons_nil (p : Char) (ps : Str) (hs : p ≠ '*') : fnm (p :: ps) [] =
   rw [fnm.eq_def]
   split <;> simp_all
 
+theorem fnm_cons_escape (p : Char) (ps : Str) (c : Char) (cs : Str) :
+    fnm ('\\' :: p :: ps) (c :: cs) = (p == c && fnm ps cs) := by
+  rw [fnm.eq_def]
+  split
+  case h_8 =>
+    rename_i hx heq1 heq2
+    simp only [List.cons.injEq] at heq1
+    exact absurd heq1.2.symm (hx p ps heq1.1.symm)
+  all_goals simp_all
+
+theorem fnm_escape_nil (p : Char) (ps : Str) : fnm ('\\' :: p :: ps) [] = false := by
+  rw [fnm.eq_def]
+  split <;> simp_all
+
+/-- **An escaped name matches itself and nothing else.** -/
+theorem fnm_globEscape (s : Str) : ∀ t, fnm (globEscape s) t = true ↔ t = s := by
+  induction s with
+  | nil => intro t; cases t <;> simp [globEscape, fnm]
+  | cons c cs ih =>
+    intro t
+    have hcons : globEscape (c :: cs) = escChar c ++ globEscape cs := by simp [globEscape]
+    rw [hcons]
+    unfold escChar
+    split
+    · -- special character: written as backslash + character
+      cases t with
+      | nil => simp [fnm_escape_nil]
+      | cons d ds =>
+        simp only [List.cons_append, List.nil_append, fnm_cons_escape, Bool.and_eq_true, beq_iff_eq, ih ds]
+        constructor
+        · rintro ⟨rfl, rfl⟩; rfl
+        · intro h; injection h with h1 h2; exact ⟨h1.symm, h2⟩
+    · rename_i hsp
+      simp only [Bool.or_eq_true, beq_iff_eq, not_or] at hsp
+      obtain ⟨⟨⟨⟨h1, h2⟩, h3⟩, h4⟩, _⟩ := hsp
+      cases t with
+      | nil => simp [fnm_cons_nil c _ h2]
+      | cons d ds =>
+        simp only [List.cons_append, List.nil_append]
+        rw [fnm_cons_plain c _ d ds h2 h4 h1]
+        simp only [Bool.and_eq_true, Bool.or_eq_true, beq_iff_eq, ih ds]
+        constructor
+        · rintro ⟨h | h, rfl⟩
+          · exact absurd h h3
+          · rw [h]
+        · intro h; injection h with h1' h2'; exact ⟨Or.inr h1'.symm, h2'⟩
+
 theorem fnm_literal (pat : Str) (h : hasMeta pat = false) : ∀ s, fnm pat s = true ↔ s = pat := by
   induction pat with
   | nil => intro s; cases s <;> simp [fnm]
